@@ -2,8 +2,10 @@ package gw
 
 import (
 	"fmt"
+	"runtime"
 	"testing"
 	"testing/synctest"
+	"time"
 
 	"pgregory.net/rapid"
 
@@ -30,6 +32,24 @@ type c06Case struct {
 	Exchanges []c06Exchange `json:"exchanges"`
 	Ops       []int         `json:"ops"` // each entry: index of the exchange to open (first occurrence) or to advance
 	Auth      bool          `json:"auth"`
+	// Reuse, when set: exchange 0 runs to completion first; after GapMs exchange 1, which uses the
+	// same message ID, is played with StepDelayMs[k] before its k-th step, and before some steps a
+	// late duplicate of an acknowledgement which the client sent in exchange 0 arrives (DupAt[k] =
+	// index+1 into the client's acknowledgements of exchange 0, 0 = none).
+	Reuse *c06Reuse `json:"reuse,omitempty"`
+}
+
+type c06Reuse struct {
+	RetryMs     int   `json:"retry_ms"`
+	GapMs       int   `json:"gap_ms"`
+	StepDelayMs []int `json:"step_delay_ms"`
+	DupAt       []int `json:"dup_at"`
+	// Immediate (both exchanges broker-initiated): the broker sends the second PUBLISH the moment
+	// the gateway has written the last acknowledgement of the first one (a broker may reuse a packet
+	// identifier as soon as it has the PUBACK / PUBCOMP), so the gateway's two loops run concurrently.
+	Immediate bool `json:"immediate,omitempty"`
+	// YieldInWrite: how often the writing goroutine yields the processor inside that write.
+	YieldInWrite int `json:"yield_in_write,omitempty"`
 }
 
 var c06Steps = map[string]int{"cpub1": 2, "cpub2": 4, "csub": 2, "bpub1": 2, "bpub1new": 3, "bpub2": 4, "bpub2new": 5, "bpub0new": 2}
@@ -94,6 +114,9 @@ type c06State struct {
 	failed   string
 	done     bool
 	openedAt int
+	// preopened: the opening PUBLISH of this broker-initiated exchange was sent already (by the broker
+	// model, at the very moment it got the last acknowledgement of the previous exchange)
+	preopened bool
 }
 
 func TestC06GW(t *testing.T) {
@@ -108,6 +131,9 @@ func TestC06GW(t *testing.T) {
 
 func runC06(c c06Case) (r vf.Result) {
 	cfg := gwsim.Config{Auth: c.Auth, RetryDelayMs: 10000, RetryCount: 2}
+	if c.Reuse != nil {
+		cfg.RetryDelayMs = c.Reuse.RetryMs
+	}
 	s := gwsim.Start(cfg, nil, "c06")
 	var events []gwsim.Event
 	take := func() []gwsim.Event { // new gateway output since the last call
@@ -144,11 +170,18 @@ func runC06(c c06Case) (r vf.Result) {
 		return func(e gwsim.Event) bool { return e.MQ != nil && e.MQ.Type == typ && e.MQ.MsgID == mid }
 	}
 	open := map[int]bool{}
-	for opi, xi := range c.Ops {
+	var sentByClient []snref.Pkt // acknowledgements the scripted client sent, in order (late duplicates are drawn from them)
+	clientSend := func(p snref.Pkt) {
+		if p.Type != snref.PUBLISH && p.Type != snref.SUBSCRIBE {
+			sentByClient = append(sentByClient, p)
+		}
+		s.ClientSend(p, false)
+	}
+	advance := func(opi, xi int) {
 		x := c.Exchanges[xi]
 		st := &states[xi]
 		if st.failed != "" {
-			continue
+			return
 		}
 		// non-triviality: an exchange of the opposite direction with the same ID is open now
 		for j := range open {
@@ -189,7 +222,7 @@ func runC06(c c06Case) (r vf.Result) {
 				s.BrokerSend(mqttref.Pkt{Type: mqttref.PUBREC, MsgID: x.Mid}, false)
 				expect("PUBREC to the client", find(take(), gwsim.GC, snIs(snref.PUBREC, x.Mid)))
 			case 2:
-				s.ClientSend(snref.Pkt{Type: snref.PUBREL, MsgID: x.Mid}, false)
+				clientSend(snref.Pkt{Type: snref.PUBREL, MsgID: x.Mid})
 				expect("MQTT PUBREL", find(take(), gwsim.GB, mqIs(mqttref.PUBREL, x.Mid)))
 			case 3:
 				s.BrokerSend(mqttref.Pkt{Type: mqttref.PUBCOMP, MsgID: x.Mid}, false)
@@ -229,8 +262,13 @@ func runC06(c c06Case) (r vf.Result) {
 				if isNew {
 					topic = st.name
 				}
-				s.BrokerSend(gwgen.BPublish(topic, qos, x.Mid, payload, false, false), false)
+				if !st.preopened {
+					s.BrokerSend(gwgen.BPublish(topic, qos, x.Mid, payload, false, false), false)
+				}
 				ev := take()
+				if st.preopened {
+					ev = s.Trace().Events // the gateway may have answered while the previous exchange's last step was observed
+				}
 				if isNew {
 					e := find(ev, gwsim.GC, func(e gwsim.Event) bool { return e.SN != nil && e.SN.Type == snref.REGISTER && e.SN.TopicName == st.name })
 					if expect("REGISTER for the new topic", e) {
@@ -243,7 +281,7 @@ func runC06(c c06Case) (r vf.Result) {
 					}
 				}
 			case k == 1: // REGACK
-				s.ClientSend(snref.Pkt{Type: snref.REGACK, TopicID: st.topicID, MsgID: st.regMid, RC: 0}, false)
+				clientSend(snref.Pkt{Type: snref.REGACK, TopicID: st.topicID, MsgID: st.regMid, RC: 0})
 				e := find(take(), gwsim.GC, pubIs)
 				if expect("PUBLISH after the REGACK", e) && (e.SN.TopicID != st.topicID || (qos > 0 && e.SN.MsgID != x.Mid)) {
 					st.failed = fmt.Sprintf("PUBLISH after REGACK has topic ID %d message ID %d, want %d / %d", e.SN.TopicID, e.SN.MsgID, st.topicID, x.Mid)
@@ -253,16 +291,16 @@ func runC06(c c06Case) (r vf.Result) {
 				if isNew {
 					tid = st.topicID
 				}
-				s.ClientSend(snref.Pkt{Type: snref.PUBACK, TopicID: tid, MsgID: x.Mid, RC: 0}, false)
+				clientSend(snref.Pkt{Type: snref.PUBACK, TopicID: tid, MsgID: x.Mid, RC: 0})
 				expect("MQTT PUBACK", find(take(), gwsim.GB, mqIs(mqttref.PUBACK, x.Mid)))
 			case k == 2 && qos == 2:
-				s.ClientSend(snref.Pkt{Type: snref.PUBREC, MsgID: x.Mid}, false)
+				clientSend(snref.Pkt{Type: snref.PUBREC, MsgID: x.Mid})
 				expect("MQTT PUBREC", find(take(), gwsim.GB, mqIs(mqttref.PUBREC, x.Mid)))
 			case k == 3:
 				s.BrokerSend(mqttref.Pkt{Type: mqttref.PUBREL, MsgID: x.Mid}, false)
 				expect("PUBREL to the client", find(take(), gwsim.GC, snIs(snref.PUBREL, x.Mid)))
 			case k == 4:
-				s.ClientSend(snref.Pkt{Type: snref.PUBCOMP, MsgID: x.Mid}, false)
+				clientSend(snref.Pkt{Type: snref.PUBCOMP, MsgID: x.Mid})
 				expect("MQTT PUBCOMP", find(take(), gwsim.GB, mqIs(mqttref.PUBCOMP, x.Mid)))
 			}
 		}
@@ -273,6 +311,13 @@ func runC06(c c06Case) (r vf.Result) {
 			delete(open, xi)
 		}
 		_ = opi
+	}
+	if c.Reuse != nil {
+		runC06ReusePhase(c, s, states, advance, &sentByClient, &r)
+	} else {
+		for opi, xi := range c.Ops {
+			advance(opi, xi)
+		}
 	}
 	tr := s.Finish()
 	for i, st := range states {
@@ -294,4 +339,139 @@ func runC06(c c06Case) (r vf.Result) {
 	}
 	synctest.Wait()
 	return
+}
+
+
+// ---- C06 (gateway side), second part: an earlier, finished exchange used the same message ID ----
+
+// c06Awaited gives the type of the next acknowledgement which an exchange of this kind takes from
+// the client at or after its step k (0 = none, or the exchange is not open yet). A late duplicate of
+// that type could not be told from the exchange's own acknowledgement.
+func c06Awaited(kind string, k int, opened bool) byte {
+	var steps []byte // per step: the client acknowledgement it sends, 0 for steps of the broker
+	switch kind {
+	case "bpub1":
+		steps = []byte{0, snref.PUBACK}
+	case "bpub1new":
+		steps = []byte{0, snref.REGACK, snref.PUBACK}
+	case "bpub2":
+		steps = []byte{0, snref.PUBREC, 0, snref.PUBCOMP}
+	case "bpub2new":
+		steps = []byte{0, snref.REGACK, snref.PUBREC, 0, snref.PUBCOMP}
+	default:
+		return 0
+	}
+	if k == 0 && !opened {
+		return 0
+	}
+	for i := k; i < len(steps); i++ {
+		if steps[i] != 0 {
+			return steps[i]
+		}
+	}
+	return 0
+}
+
+func runC06ReusePhase(c c06Case, s *gwsim.Session, states []c06State, advance func(opi, xi int), sent *[]snref.Pkt, r *vf.Result) {
+	ru := c.Reuse
+	if ru.Immediate {
+		x1, x2 := c.Exchanges[0], c.Exchanges[1]
+		last := byte(0x40) // PUBACK
+		if x1.Kind == "bpub2" || x1.Kind == "bpub2new" {
+			last = 0x70 // PUBCOMP
+		}
+		qos2 := byte(1)
+		if x2.Kind == "bpub2" || x2.Kind == "bpub2new" {
+			qos2 = 2
+		}
+		topic := "ab"
+		if x2.Kind == "bpub1new" || x2.Kind == "bpub2new" {
+			topic = states[1].name
+		}
+		fired := false
+		s.MQ.OnWrite = func(b []byte) {
+			if !fired && len(b) == 4 && b[0] == last && b[1] == 2 && uint16(b[2])<<8|uint16(b[3]) == x1.Mid {
+				fired = true
+				states[1].preopened = true
+				s.BrokerSend(gwgen.BPublish(topic, qos2, x2.Mid, []byte("x1"), false, false), false)
+				// the gateway's write returns a little later than the broker reacts (a write is a
+				// system call: the writer may well lose the CPU in it)
+				for i := 0; i < ru.YieldInWrite; i++ {
+					runtime.Gosched()
+				}
+			}
+		}
+		defer func() { s.MQ.OnWrite = nil }()
+		r.Label("identifier-reused-at-once")
+	}
+	for k := 0; k < c06Steps[c.Exchanges[0].Kind]; k++ {
+		advance(k, 0)
+	}
+	if states[0].failed != "" {
+		return // reported by the caller
+	}
+	acks := append([]snref.Pkt(nil), (*sent)...)
+	s.Advance(time.Duration(ru.GapMs) * time.Millisecond)
+	x := c.Exchanges[1]
+	for k := 0; k < c06Steps[x.Kind]; k++ {
+		if k < len(ru.DupAt) && ru.DupAt[k] > 0 && ru.DupAt[k] <= len(acks) {
+			d := acks[ru.DupAt[k]-1]
+			// a late duplicate which is of the very type the new exchange is waiting for cannot be told
+			// from its own acknowledgement: not sent
+			if d.Type != c06Awaited(x.Kind, k, states[1].preopened) {
+				s.ClientSend(d, false)
+				s.Settle()
+				r.Label("late-duplicate-of-earlier-ack")
+			}
+		}
+		if k < len(ru.StepDelayMs) && ru.StepDelayMs[k] > 0 {
+			s.Advance(time.Duration(ru.StepDelayMs[k]) * time.Millisecond)
+		}
+		advance(100+k, 1)
+	}
+	r.NonTrivial = true
+}
+
+func genC06Reuse(t *rapid.T) c06Case {
+	c := c06Case{Auth: rapid.Bool().Draw(t, "auth")}
+	kinds := []string{"cpub1", "cpub2", "csub", "bpub1", "bpub1new", "bpub2", "bpub2new"}
+	k1 := rapid.SampledFrom(kinds).Draw(t, "first")
+	k2 := rapid.SampledFrom(kinds).Draw(t, "second")
+	mid := rapid.SampledFrom([]uint16{1, 2, 7, 0xfffe}).Draw(t, "mid")
+	c.Exchanges = []c06Exchange{{Kind: k1, Mid: mid}, {Kind: k2, Mid: mid}}
+	ru := &c06Reuse{RetryMs: rapid.SampledFrom([]int{1000, 4000}).Draw(t, "retry_ms")}
+	rd := ru.RetryMs
+	// the second exchange opens GapMs after the first one finished, and all its steps happen within
+	// 0.85 x RetryDelay of its opening: none of its own timers fires, the first one's leftovers may
+	ru.GapMs = rd * rapid.SampledFrom([]int{0, 1, 30, 60, 90, 99, 101, 150}).Draw(t, "gap_pct") / 100
+	budget := rd * 85 / 100
+	n := c06Steps[k2]
+	for k := 0; k < n; k++ {
+		d := 0
+		if k > 0 {
+			d = rd * rapid.SampledFrom([]int{0, 0, 5, 20, 45}).Draw(t, "delay_pct") / 100
+			if d > budget {
+				d = budget
+			}
+			budget -= d
+		}
+		ru.StepDelayMs = append(ru.StepDelayMs, d)
+		ru.DupAt = append(ru.DupAt, rapid.IntRange(0, 3).Draw(t, "dup"))
+	}
+	if !c06Client(k1) && !c06Client(k2) && rapid.Bool().Draw(t, "immediate") {
+		ru.Immediate, ru.GapMs = true, 0
+		ru.YieldInWrite = rapid.SampledFrom([]int{0, 1, 3, 10}).Draw(t, "yield")
+	}
+	c.Reuse = ru
+	return c
+}
+
+func TestC06Reuse(t *testing.T) {
+	vf.Check(t, vf.Prop[c06Case]{
+		ID: "C06", Name: "gateway-message-id-reused", Bubble: true,
+		Rule: "one exchange (client PUBLISH QoS 1/2, SUBSCRIBE, broker PUBLISH QoS 1/2 on a known or a new topic) runs to completion; 0-1.5 RetryDelay later a second exchange of any of these kinds uses the same message ID; its steps are spread over at most 0.85 RetryDelay after its opening (so none of its own timers fires, while whatever the first exchange left armed does), and before some steps a late duplicate of an acknowledgement the client sent in the first exchange arrives (UDP may duplicate and delay), unless it is of the very type the second exchange is waiting for. When both exchanges are broker-initiated, in half of the cases the broker sends the second PUBLISH at the very moment the gateway writes the last acknowledgement of the first (a broker may reuse a packet identifier as soon as it has the PUBACK / PUBCOMP). RetryDelay 1 s / 4 s, virtual time. Every case is non-trivial; distinct by case.",
+		Assumptions: []string{"oracle: the second exchange completes normally, every step translated with the right message ID and topic ID", "only the client side duplicates (datagrams); the broker connection is a byte stream"},
+		Gen:         genC06Reuse,
+		Run:         runC06,
+	})
 }
